@@ -59,7 +59,14 @@ def pTag (st : PState) (multi : Bool) (rest : List String) : Option TagDesc :=
     let us ← parseListOf parseStr units
     let ids ← gotOf (parseListOf parseStr) refs
     let arrays := match st.desc.blocks.getLast? with | some b => b.arrays | none => []
-    let rs : Got (List (List String)) := match ids with | .threw => .threw | .val l => .val (resolveRefs arrays l)
+    -- a reference is described by id and name together (`id ++ "\x1f" ++ name`): ids alone are ambiguous once raw edits have
+    -- blanked the ids of two arrays of a block
+    let rs : Got (List (List String)) := match ids with
+      | .threw => .threw
+      | .val l => .val (l.map fun key =>
+          match arrays.find? (fun a => a.ent.id ++ "\x1f" ++ a.ent.name == key) with
+          | some a => getDimensionsUnits a
+          | none => [])
     pure { ent := ent, isMulti := multi, posSet := p, units := us, refs := rs, features := [] }
   | _ => none
 
